@@ -116,7 +116,9 @@ func runC01(c *ev.Ctx) {
 		if s := rootStringSafe(d.V); textNontrivial(s) {
 			c.Nontrivial(s)
 		}
-		c.SampleTag(d.Tag, func() interface{} { return map[string]string{"space": d.Tag, "spec": d.V.String(), "text": rootStringSafe(d.V)} })
+		c.SampleTag(d.Tag, func() interface{} {
+			return map[string]string{"space": d.Tag, "spec": d.V.String(), "text": rootStringSafe(d.V)}
+		})
 		if msg != "" {
 			v := d.V
 			c.Violate(ev.Violation{Sig: "roundtrip/" + stage + "/" + features(v), Msg: msg, Witness: map[string]interface{}{"spec": v.String(), "space": d.Tag}}, func() string { _, st := c01One(v); return "roundtrip/" + st + "/" + features(v) })
@@ -168,7 +170,9 @@ func runC02(c *ev.Ctx) {
 		if s := rootStringSafe(d.V); textNontrivial(s) {
 			c.Nontrivial(s)
 		}
-		c.SampleTag(d.Tag, func() interface{} { return map[string]string{"space": d.Tag, "spec": d.V.String(), "text": rootStringSafe(d.V)} })
+		c.SampleTag(d.Tag, func() interface{} {
+			return map[string]string{"space": d.Tag, "spec": d.V.String(), "text": rootStringSafe(d.V)}
+		})
 		if msg != "" {
 			v := d.V
 			c.Violate(ev.Violation{Sig: "json/" + stage + "/" + features(v), Msg: msg, Witness: map[string]interface{}{"spec": v.String(), "space": d.Tag}}, func() string { _, st := c02One(v); return "json/" + st + "/" + features(v) })
